@@ -79,6 +79,12 @@ func script0(w *W) string {
 			break
 		}
 		fmt.Fprintf(&b, "spawn(function() use ($ch) {\n%s", nap(id))
+		if w.Payload == "mutint" && !w.ArrayPayload {
+			// the payload is a variable the producer sends and THEN updates, by one of several operator forms: what was
+			// sent is the value at the time of the send, whatever the sender does to its variable afterwards
+			fmt.Fprintf(&b, "  $v = %d;\n  for ($k = 0; $k < %d; $k++) {\n    __b(%d, \"send\", \"p%d-\" . $k);\n    $r = $ch->send($v);\n    __e(%d, $r);\n    %s;\n  }\n", mutStart(w.MutOp, p), n, id, p, id, mutStmt[w.MutOp])
+			n = 0
+		}
 		if w.Payload == "loopint" && !w.ArrayPayload {
 			// the most natural producer: the loop counter itself is the payload
 			base := 1000 * (p + 1)
@@ -226,6 +232,12 @@ func execScript(t *testing.T, w *W, s hx.Sched) *hx.Outcome {
 					}
 				}
 			case *data.IntValue:
+				if w.Payload == "mutint" {
+					if lab, ok := mutLabels(w)[v.Value]; ok {
+						ret = lab
+					}
+					break
+				}
 				// an integer payload 1000*(p+1)+k stands for "p<p>-<k>"
 				if (w.Payload == "int" || w.Payload == "loopint") && v.Value >= 1000 {
 					ret = fmt.Sprintf("p%d-%d", v.Value/1000-1, v.Value%1000)
@@ -288,4 +300,56 @@ func atoi(s string) int {
 	n := 0
 	fmt.Sscan(s, &n)
 	return n
+}
+
+// mutint payloads: the statement that updates the sender's variable after each send, the start value per producer
+// (chosen so that all values of a run are distinct) and the value -> label table of a workload.
+var mutStmt = map[string]string{
+	"mul2": "$v = $v * 2", "twice": "$v = 2 * $v", "muleq2": "$v *= 2", "add1": "$v = $v + 1", "pluseq3": "$v += 3",
+	"preinc": "++$v", "postinc": "$v++", "postdec": "$v--", "sub1": "$v = $v - 1", "mulvar": "$two = 2; $v = $v * $two",
+}
+
+var mutOps = []string{"mul2", "twice", "muleq2", "add1", "pluseq3", "preinc", "postinc", "postdec", "sub1", "mulvar"}
+
+func mutMul(op string) bool { return op == "mul2" || op == "twice" || op == "muleq2" || op == "mulvar" }
+
+func mutStart(op string, p int) int {
+	switch {
+	case mutMul(op):
+		return 1001 + 2*p // odd and distinct: start*2^k never collide
+	case op == "postdec" || op == "sub1":
+		return 100000*(p+1) + 50000
+	}
+	return 100000 * (p + 1)
+}
+
+func mutNext(op string, v int) int {
+	switch {
+	case mutMul(op):
+		return v * 2
+	case op == "pluseq3":
+		return v + 3
+	case op == "postdec" || op == "sub1":
+		return v - 1
+	}
+	return v + 1
+}
+
+var mutCacheW *W
+var mutCache map[int]string
+
+func mutLabels(w *W) map[int]string {
+	if mutCacheW == w {
+		return mutCache
+	}
+	m := map[int]string{}
+	for p, n := range w.Producers {
+		v := mutStart(w.MutOp, p)
+		for k := 0; k < n; k++ {
+			m[v] = fmt.Sprintf("p%d-%d", p, k)
+			v = mutNext(w.MutOp, v)
+		}
+	}
+	mutCacheW, mutCache = w, m
+	return m
 }
